@@ -1,7 +1,7 @@
 """Property -> rule packs, level and wording used in evidence files."""
 TB = ["rustc type checker, MIR construction and constant evaluator (nightly 1.97)",
       "egfacts fact extractor (serialiser of rustc's own data)",
-      "mirq analysis library (CFG, carrier propagation, origin trees)",
+      "mirq analysis library (CFG, carrier propagation, origin trees, path summaries)",
       "hand-confirmed instance tables and floors in /verif/rules"]
 
 SOURCE_COMMITS = []
@@ -40,10 +40,10 @@ CHECKS = {
         explanation="Structural necessary conditions of the raw load/store round trip, decided on the MIR of all 7 LoadStore impls and the raw iterator: "
                     "R11.1 type-parameter dependence (store depends on the data order iff load does - exact by parametricity), R11.2 endianness pairing per "
                     "branch of IS_ALTERNATE_ORDER incl. the RawU24 sub-range, R11.3 size_hint = (8/bpp)*len saturating-minus index for all 7 widths, "
-                    "R11.5 documented sub-byte bit position table, R11.6 iterator = load at a running index. The bit-exact store/load identity itself is not decided here.",
+                    "R11.5 documented sub-byte bit position table, R11.6 iterator = load at a running index (per-path effects of next/nth), R11.7 slot agreement on path summaries: every accepting path of load/store has established exactly the pixel's own byte slot (offset, length, minimal buffer length, all linear in the index), every rejecting path is free of effects, store writes only through the slot. The bit-exact store/load identity itself is not decided here.",
         claim="Decides the structural clauses (order dependence, endianness pairing, documented bit positions, size_hint form, iterator stepping) for every raw type and both data orders; not the full bit-level round trip.",
         note="Necessary conditions only; trusted: rustc MIR, dependence analysis (over-approximate 'uses'), decision extraction on small acyclic functions.",
-        technique="type-parameter dependence analysis + guarded origin trees (decision extraction) over MIR",
+        technique="type-parameter dependence analysis + path-sensitive dataflow summaries (facts / effects / result per path, combinators and helpers expanded) over MIR",
         trusted_base=TB,
         assumptions=["usize is 64 bit on the analysis host"],
     ),
@@ -51,11 +51,11 @@ CHECKS = {
         packs=["c10"], level="other",
         explanation="Structural necessary conditions of framebuffer read-after-write, decided on the MIR of all set_pixel impls, as_image, pixel, BUFFER_SIZE and CHECK_N: "
                     "R10.1 the writer depends on the data order iff the reader's load does (parametricity), R10.2 endianness / documented bit position pairing, "
-                    "R10.3 every write into self.data is dominated by 0<=x<WIDTH and 0<=y<HEIGHT, R10.6 the byte index has the padded-row layout ImageRaw reads, "
+                    "R10.3 every path of set_pixel that stores has established 0<=x<WIDTH and 0<=y<HEIGHT and every path that does not store has established the negation of one of them (writes exactly inside), the stored byte of sub-byte depths is a read-modify-write of the same byte with mask 2^bpp-1, R10.6 the byte index has the padded-row layout ImageRaw reads, "
                     "R10.4 as_image views data[0..BUFFER_SIZE] with the same colour type/order and pixel() goes through it, R10.5 N>=BUFFER_SIZE is forced at compile time.",
         claim="Decides layout agreement between writer and reader for all 7 depths x 2 orders (order dependence, endianness, bit position, padded row stride, guards, compile-time size check); histories as such follow from these but are not enumerated.",
         note="Necessary conditions; index forms are compared with the canonical padded-row formula after constant folding, other equivalent arithmetic is reported as undecided.",
-        technique="type-parameter dependence + dominating-guard extraction + origin-tree comparison over MIR",
+        technique="type-parameter dependence + path-sensitive dataflow summaries (guard sets, stores and their index per path) + polynomial normal forms of index expressions over MIR",
         trusted_base=TB,
         assumptions=["usize is 64 bit on the analysis host"],
     ),
@@ -65,27 +65,27 @@ CHECKS = {
                     "R14.2 decoration pairing and width, R14.3 colour roles of the three MonoFontDrawTarget flavours and their construction in draw_string, R14.4 the two decoders of the mapping grammar and index(), R14.5 glyph() cell arithmetic and guards, who-may-call SubImage::new_unchecked.",
         claim="Decides the built-in font/mapping table clause for all fonts and the structural wiring of glyph lookup, colour roles and decorations; not the per-character advance arithmetic nor the bitmap contents.",
         note="Necessary conditions plus one exhaustive table clause; trusted: rustc const evaluation of the font constants, the checker's own copy of the documented mapping grammar (cross-checked against the two in-tree decoders by R14.4).",
-        technique="constant-table lint over compiler-evaluated consts + origin-tree/decision-table comparison over MIR",
+        technique="constant-table lint over compiler-evaluated consts + path-sensitive dataflow summaries (closures of the glyph colour streams and the mapping decoders summarised per path) over MIR",
         trusted_base=TB,
         assumptions=[],
     ),
     "C02": dict(
         packs=["c02"], level="other",
         explanation="R02.1 the text box height covers the glyph cell and the underline on every path of measure_string (with the table obligation over all built-in fonts where the code relies on it), R02.2 decoration/baseline table over every MonoFont constant, "
-                    "R02.3 the six closed shapes grow their box by exactly stroke_area's growth, R02.4 min/max pairing of the text union and same (line, position) pairs for measuring and drawing, R02.5 the thick-segment box spans exactly the end points of the rasterised edges.",
+                    "R02.3 the six closed shapes grow their box by exactly stroke_area's growth, R02.4 min/max pairing of the text union and same (line, position) pairs for measuring and drawing, R02.5 the thick-segment box spans exactly the end points of the rasterised edges, R02.6 axis consistency (no definite x-quantity meets a y-quantity in sums, min/max or Point/Size components) in the styled/text/image code, R02.7 the triangle's hole test is existential over the joins of all three corners, each against its opposite edge.",
         claim="Decides the font-table clauses for all built-in fonts and the structural wiring of styled/text/thick-segment boxes; pixel-exact containment for lines, triangles and polylines (join arithmetic) is not decided.",
         note="Necessary conditions; trusted: rustc const evaluation of font constants; equivalent-but-different arithmetic is reported as undecided.",
-        technique="constant-table lint + origin-tree comparison and decision extraction over MIR",
+        technique="constant-table lint + origin-tree comparison, path summaries and an axis (dimension) analysis over MIR",
         trusted_base=TB,
         assumptions=[],
     ),
     "C20": dict(
         packs=["c20"], level="other",
         explanation="R20.1 the 12 ColorMapping tables are extracted completely from the MIR switch tables (constant patterns are compiled to switches on evaluated values) and checked to be mutually inverse, injective, '?' only outside the table and to name the documented colours; gray radix/scale pairing; ' ' <-> None. "
-                    "R20.2 complete decision table of draw_pixel over (inside, allow_oob, allow_overdraw, occupied) compared with the specification on all 16 valuations. R20.3 one cell index formula for get/set, affected_area min/max pairing, diff table.",
+                    "R20.2 complete decision table of draw_pixel over (inside, allow_oob, allow_overdraw, occupied) compared with the specification on all 16 valuations. R20.3 one cell index formula for get/set, affected_area min/max pairing, diff table, element-wise eq. R20.5 who-may-write: the cell array is stored only by set_pixel/set_pixel_unchecked and the DrawTarget methods change cells only through draw_pixel (which applies the checks).",
         claim="Decides the character tables and the panic/store decision table of draw_pixel exhaustively, plus structural pairing of the area/diff/index code; histories as such follow from the single store site but are not enumerated.",
         note="Necessary conditions plus exhaustive finite tables; trusted: rustc's lowering of constant patterns, decision extraction on acyclic CFGs.",
-        technique="decision-table extraction from MIR switch tables + origin-tree comparison",
+        technique="decision-table extraction from MIR switch tables and path summaries + field write-site inventory (who-may-write)",
         trusted_base=TB,
         assumptions=[],
     ),
@@ -95,7 +95,7 @@ CHECKS = {
                     "R03.2 single constructors that confine the area once, R03.3 one shift with opposite sign for the reported box, R03.4 colours only through Into, R03.5 pass-through of Cropped, R03.6 trait defaults keep their geometry and every fill_contiguous in the library pairs the caller's colour stream with the caller's area.",
         claim="Decides the structural exactness of adapters and defaults (what is forwarded, shifted, clipped, converted); the skip arithmetic of the cropping colour iterator and deep nestings are not decided.",
         note="Necessary conditions; idioms other than the enumerated ones are reported as violations (fail closed).",
-        technique="origin-tree wiring comparison + guard (dominance) extraction over MIR",
+        technique="origin-tree wiring comparison (canonical forms) + guard extraction and path summaries over MIR",
         trusted_base=TB,
         assumptions=[],
     ),
@@ -105,7 +105,7 @@ CHECKS = {
                     "R13.3 luma coefficients sum to the divisor with rounding constant div/2, R13.4 binary thresholds (rounded luma >= 128, GRAY_50 = (MAX+1)/2), map_color and bool tables, BLACK/WHITE constants.",
         claim="Decides the wiring/maxima/threshold/table clauses for all ~180 conversion functions; nearest-value rounding and monotonicity of the fixed-point reciprocal over all value pairs are not decided.",
         note="Necessary conditions; trusted: rustc's evaluation of const generics and associated consts.",
-        technique="origin-tree wiring comparison against compiler-evaluated constant tables + decision extraction",
+        technique="origin-tree wiring comparison against compiler-evaluated constant tables + path summaries (threshold and table functions as fact/result pairs)",
         trusted_base=TB,
         assumptions=[],
     ),
@@ -115,7 +115,7 @@ CHECKS = {
                     "R07.3 the polyline consumers apply the extra Polyline::translate offset. R07.2 translation-degree abstract interpretation (positions degree 1, sizes/differences 0, doubled centres 2) of 36 query functions of the primitives (center, center_2x, bounding_box, contains, offset, styled_bounding_box, …) with callees inlined: no truncating division, |.|, variable scaling or mixed-degree comparison touches a position-dependent value and results have the degree of their role, hence these queries commute with translation for all inputs.",
         claim="Decides 'translate_mut has the same effect as translate', that exactly the anchors move, and translation-equivariance of bounding boxes / contains / centres of the listed primitives (and of the whole Rectangle API in C16); equivariance of rasterisation through the thick-join arithmetic and triangle area products is outside the domain (listed exclusions).",
         note="Necessary conditions. Known deviation of the pristine tree outside this rule's reach: thick miter joins round a position-dependent numerator (IntersectionParams::intersection), see DESIGN.md section 7.",
-        technique="per-field effect summaries from MIR def-use with &mut mutation tracking, compared between sibling methods and with an anchor table",
+        technique="per-field effect summaries from path summaries (loops walked once) compared between sibling methods and with an anchor table; translation-degree abstract domain",
         trusted_base=TB,
         assumptions=[],
     ),
@@ -125,7 +125,7 @@ CHECKS = {
                     "R15.4 alignment table (Left/Right/Center forms over next_position measured at zero), one line_height() advance per split item on every path, LineHeight::to_absolute table, Text::line_height wiring.",
         claim="Decides the table/wiring clauses of text layout for every alignment, baseline and line-height variant; equality of summed advances (draw = measure on x, chaining) is arithmetic and not decided.",
         note="Necessary conditions; equivalent-but-different arithmetic is reported as undecided.",
-        technique="per-path origin trees (decision extraction) over MIR compared with specification tables",
+        technique="path-sensitive dataflow summaries and per-path origin trees over MIR compared with specification tables",
         trusted_base=TB,
         assumptions=[],
     ),
@@ -133,10 +133,10 @@ CHECKS = {
         packs=["c06"], level="other",
         explanation="R06.1 complete inside/outside split tables over StrokeAlignment (outside + inside = width, larger half inside), R06.2 fill_area/stroke_area offsets (solid: -inside / +outside, non-solid fill: 0) and Styled forwards, "
                     "R06.3 segment/colour pairing: draw path (draw_stroke, draw_stroke_and_fill) and pixel path (three StyledPixelsIterator::next) assign the same colour role to the same scanline segment, segment accessors span the documented ranges, "
-                    "R06.4 both renderers of rectangle/circle/ellipse/rounded rectangle take their areas from style.stroke_area/fill_area of the unmodified primitive.",
+                    "R06.4 both renderers of rectangle/circle/ellipse/rounded rectangle take their areas from style.stroke_area/fill_area of the unmodified primitive (call sites followed through helpers introduced by an edit), R06.5 axis consistency of the stroke/fill area code.",
         claim="Decides the split tables (the statement's own wording) and the structural agreement of the two renderers with fill_area()/stroke_area(); that the scanline generators realise exactly contains() of those areas, and the rectangle's four-border arithmetic, are not decided.",
         note="Necessary conditions; fail closed on unrecognised idioms.",
-        technique="decision-table extraction + origin-tree wiring comparison over MIR",
+        technique="decision-table extraction + origin-tree wiring comparison + axis (dimension) analysis over MIR",
         trusted_base=TB,
         assumptions=[],
     ),
@@ -146,17 +146,17 @@ CHECKS = {
                     "R01.3/R03.6 the trait defaults and every native fill_contiguous pair the caller's colour stream with the caller's area; R14.3 font target colour roles equal between fill_contiguous and fill_solid; R01.4 scanline -> 1px rectangle; R01.5 image draw wiring.",
         claim="Decides that the alternative drawing paths are wired to the same generators, geometry inputs and colour roles; pixel-map equality itself (scanline/rectangle arithmetic, thin corners, collapsed fills) is not decided.",
         note="Necessary conditions; fail closed on unrecognised idioms.",
-        technique="sibling-implementation agreement via origin-tree comparison and decision tables over MIR",
+        technique="sibling-implementation agreement via origin-tree comparison, decision tables and path summaries (loop bodies walked once) over MIR",
         trusted_base=TB,
         assumptions=[],
     ),
     "C09": dict(
         packs=["c09"], level="other",
         explanation="R09.1 every SubImage area is confined (single confining constructor, who-may-call new_unchecked, unconditional forwards that compose for nesting), R09.2 ImageRaw::new accepts exactly bytes_per_row*height with padded rows, data_width table, new_const, "
-                    "R09.3 pixel()/draw_sub_image guards by dominance and the index/skip forms, R09.4 colour count of ContiguousPixels by a potential function: remaining_x + remaining_y*width drops by exactly 1 on every pulling path of next(), stops only at 0, and new() must initialise it to width*height.",
+                    "R09.3 pixel()/draw_sub_image guard sets on path summaries (lookup/draw exactly when inside) and the index/skip forms, R09.4 colour count of ContiguousPixels by a potential function: remaining_x + remaining_y*width drops by exactly 1 on every pulling path of next(), stops only at 0, and new() must initialise it to width*height.",
         claim="Decides length acceptance, guard placement, index/skip forms and the exact colour count of the stream (for an underlying iterator that does not run dry); colour order inside a row is inherited from C11's iterator rules.",
         note="Necessary conditions plus one invariant (potential function) check by polynomial identity on each path; trusted: path enumeration of small acyclic functions.",
-        technique="dominating-guard extraction, origin-tree comparison and a potential-function (ranking) check by polynomial identities over MIR paths",
+        technique="path-sensitive dataflow summaries (guard sets: acting paths establish every guard, idle paths violate one), origin-tree comparison and a potential-function (ranking) check by polynomial identities per path",
         trusted_base=TB,
         assumptions=["the raw data iterator yields an item for every in-range index (C11)"],
     ),
@@ -166,14 +166,14 @@ CHECKS = {
                     "R19.2 polyline Points::next loads Line(start+translate, end+translate) of the next two vertices, drops one vertex per segment, and re-enters the polyline iterator with the shared joint skipped so that zero-length segments fall through.",
         claim="Decides the canonical-edge clause (shared edges rasterise identically, result independent of vertex order as far as edge direction is concerned) and the segment-chaining structure of thin polylines; interior coverage, one-pixel tolerance and gap-freedom are geometry and not decided.",
         note="Necessary conditions; fail closed on unrecognised idioms.",
-        technique="per-path origin trees over MIR (edge-set extraction) compared with the canonical edge table",
+        technique="per-path origin trees and path summaries over MIR (edge-set extraction, per-path effects of the polyline iterator) compared with the canonical edge table",
         trusted_base=TB,
         assumptions=[],
     ),
     "C12": dict(
         packs=["c12"], level="proof",
         explanation="Bit-provenance abstract interpretation (each result bit is 0, 1, a copy of one input bit, or unknown) of new / channel accessors / From<Raw> / Into<Raw> / into_storage / to_be_bytes / to_le_bytes for all 14 colour types, callees inlined from their MIR. "
-                    "Obligations per type: O1 raw->colour->raw only clears unused bits, O2 colour->raw->colour is the identity on every value a constructor can produce (class invariant computed from the constructors), O3 the raw value fits BITS_PER_PIXEL, "
+                    "Obligations per type: O1 raw->colour->raw only clears unused bits, O2 colour->raw->colour is the identity on every value a constructor can produce (class invariant computed from the constructors), O3 the raw value fits BITS_PER_PIXEL and every constructor (incl. From<Raw>) clears the bits above the channels, "
                     "O4 new keeps each channel modulo its width in disjoint contiguous fields and the accessors return it, O5 documented Rgb/Bgr bit order, O6 storage and both byte serialisations expose the same bit vector. The domain is exact for this shift/mask/cast code, so the verdict covers all values; an unknown bit leaves the obligation undischarged.",
         claim="Proves the raw round-trip, masking, channel layout and serialisation clauses for every colour type and every value.",
         note="Trusted: rustc's MIR and evaluated constants, the bit-domain transfer functions (and/or/xor/shift/cast/add on disjoint supports, byte (de)composition), inlining of crate-local callees; BinaryColor (a two-valued enum) is decided by complete decision tables.",
@@ -184,7 +184,7 @@ CHECKS = {
     "C08": dict(
         packs=["c08"], level="other",
         explanation="R08.1 (exact) no allocator in the program: the crate graphs of both library crates in every analysed feature configuration contain neither alloc nor std and no type/callee path lives there. R08.2 every explicit panic entry point reachable from non-test, non-mock library code is in an audited table with its reason; the six unreachable!() of the font adapter are proved unreachable on the monomorphic instance closure of text drawing. "
-                    "R08.5 the zero-extent guards at the two anchored sites by dominance. R08.3/R08.4 interval abstract interpretation of arithmetic kernels under display-scale input contracts: every overflow/zero-divisor assert must be proved dead; unproved ones are findings.",
+                    "R08.5 the zero-extent guards at the two anchored sites by dominance. R08.3/R08.4 interval abstract interpretation of every library body under display-scale input contracts, with private field ranges inferred from all write sites and the parameter ranges of crate-private functions inferred from all their call sites: every overflow/zero-divisor/bounds assert must be proved dead, be a recorded finding, or be counted in the reviewed outside-the-claim baseline.",
         claim="Decides the allocation clause exactly and the explicit-panic discipline; arithmetic overflow is decided only inside the kernel table under the stated contracts; termination of iterators is not decided.",
         note="Host assumption: usize is 64 bit. Interval results are sound only relative to the input contracts listed in the evidence file.",
         technique="crate-graph and whole-program path scan, audited panic-site inventory, monomorphic reachability, dominance guards, interval abstract interpretation",
@@ -194,10 +194,10 @@ CHECKS = {
     "C16": dict(
         packs=["c16", "degree_c16"], level="other",
         explanation="R16.1 the two public definitions of Rectangle::contains and Rectangle::offset (core inherent vs. embedded-graphics trait impl) have identical decision structures; R16.3 no library logic compares whole Point/Size values with the derived lexicographic order; R16.4 component_min/component_max are component-wise and intersection/envelope build top-left/bottom-right from max/min resp. min/max; "
-                    "R16.5 translation-degree analysis of the Rectangle API: positions have degree 1, sizes and differences degree 0, no truncating division or variable scaling is applied to a position-dependent value and comparisons relate values of equal degree.",
+                    "R16.5 translation-degree analysis of the Rectangle API: positions have degree 1, sizes and differences degree 0, no truncating division or variable scaling is applied to a position-dependent value and comparisons relate values of equal degree. R16.6 axis consistency of the rectangle and geometry operations.",
         claim="Decides agreement of duplicate definitions, absence of lexicographic point logic, the min/max roles of the corner arithmetic and translation-equivariance (hence rounding independent of position) of the Rectangle operations; set-theoretic exactness of the interval case analysis is not decided.",
         note="Necessary conditions.",
-        technique="sibling-implementation agreement (decision signatures), typed call-site lint, translation-degree abstract domain over MIR",
+        technique="sibling-implementation agreement (decision signatures), typed call-site lint, translation-degree abstract domain, axis (dimension) analysis over MIR",
         trusted_base=TB,
         assumptions=[],
     ),
@@ -207,17 +207,17 @@ CHECKS = {
                     "R05.2 rounded rectangle: the quadrant/row-guard table of RoundedRectangleContains::contains equals the one of the row search (with find/rfind per side) and only the fall-through accepts without consulting a corner; R19.1 triangle canonical edges in contains() and in the scanline intersection; R05.3 rectangle iterator corners.",
         claim="Decides that both sides evaluate the same membership predicate on the same arguments for circle, ellipse, sector, rounded rectangle and triangle edges; that the per-row searches enumerate exactly the accepted points (mirrored runs, rows without hit, order, uniqueness) is numeric and not decided.",
         note="Necessary conditions; a divergence is reported as undecided unless one side is visibly a different function.",
-        technique="sibling-implementation agreement via origin-tree and decision-table comparison over MIR",
+        technique="sibling-implementation agreement: acceptance conditions of the searches (loops / find / rfind walked once) and decision tables from path summaries over MIR",
         trusted_base=TB,
         assumptions=[],
     ),
     "C18": dict(
         packs=["c18"], level="other",
         explanation="R18.1 the circle and ellipse hit tests use the centre offset only through even functions (x*x + y*y, pow(2)): mirror symmetry about both centre lines for all inputs; R18.2/R18.4 under width == height the ellipse threshold is the circle's diameter_to_threshold and the test is x^2 + y^2 < threshold, a = width^2, b = height^2, both doubled-centre formulas are top_left*2 + (size-1); "
-                    "R18.3 in the float and the fixed_point build PlaneSector::new selects EntirePlane exactly under |sweep| >= ANGLE_360DEG (= 2*pi), which accepts every point; R05.2 the corner-quadrant tables of rounded rectangles.",
-        claim="Decides the symmetry, circle-equals-ellipse, full-sweep and corner-table clauses structurally; half-pixel accuracy, contiguity, bounding-box contact and angular tolerances are numeric and not decided.",
+                    "R18.3 in the float and the fixed_point build PlaneSector::new selects EntirePlane exactly under |sweep| >= ANGLE_360DEG (= 2*pi), which accepts every point; R05.2 the corner-quadrant tables of rounded rectangles. R18.5 complete decision tables of Operation::execute (and / or / true), PlaneSector::contains (left half plane on its Left side, right on its Right side, combined by the operation for all three operations x four outcomes) and point_type (None / Stroke / Fill). R18.6 axis consistency of corner radii, quadrants and centres.",
+        claim="Decides the symmetry, circle-equals-ellipse, full-sweep, plane-sector combination and corner-table clauses structurally; half-pixel accuracy, contiguity, bounding-box contact and angular tolerances are numeric and not decided.",
         note="Necessary conditions; overflow of the squared terms is C08's concern.",
-        technique="parity (even-function) analysis and decision-table comparison over MIR in two feature configurations",
+        technique="parity (even-function) analysis, complete decision tables from path summaries and axis (dimension) analysis over MIR in two feature configurations",
         trusted_base=TB,
         assumptions=[],
     ),
